@@ -84,8 +84,9 @@ type isoState struct {
 	Result  IsoResult `json:"result"`
 }
 
-// a call that allocated more than this ends the worker (after a checkpoint); the parent starts a fresh one
-const isoRecycleAbove = 8 << 20
+// once the worker has allocated more than this since it started (with at least one large block among it), it
+// checkpoints and exits; the parent starts a fresh one
+const isoRecycleAbove = 1536 << 20
 
 func newIsoResult() IsoResult {
 	return IsoResult{Sigs: map[string]bool{}, Viol: map[string]*IsoViol{}, Counters: map[string]int64{}}
@@ -192,7 +193,7 @@ func IsoChildMain(cfg IsoConfig) {
 		cfg.Deadline = time.Unix(0, ns) // the parent's absolute deadline, not a fresh budget per worker
 	}
 	runtime.GOMAXPROCS(1) // single-threaded enumeration; keeps GC cycles cheap on a loaded machine
-	debug.SetGCPercent(800)
+	debug.SetGCPercent(-1)
 	statePath, progPath, _ := isoPaths(&cfg)
 	st, err := isoReadState(statePath)
 	if err != nil {
@@ -220,6 +221,7 @@ func IsoChildMain(cfg IsoConfig) {
 	want := func(idx int) bool { return idx >= from && idx%cfg.NShards == cfg.Shard }
 	capped := false
 	expensive := false
+	var cum, bigBytes uint64
 	cfg.Cases(want, func(c *FuzzCase) bool {
 		if since%64 == 0 && time.Now().After(cfg.Deadline) {
 			res.Caps = append(res.Caps, fmt.Sprintf("%s shard %d: deadline hit at case %d", cfg.Tag, cfg.Shard, c.Idx))
@@ -263,13 +265,26 @@ func IsoChildMain(cfg IsoConfig) {
 					res.Samples = append(res.Samples, map[string]any{"target": tg.Name, "family": c.Family, "case": c.Name, "len": len(data), "outcome": class, "detail": detail})
 				}
 			}
-			if alloc > isoRecycleAbove {
-				expensive = true
+			cum += alloc
+			if alloc > 8<<20 {
+				bigBytes += alloc
 			}
 		}
 		res.Counters["cases_"+c.Family]++
 		since++
-		if since%2000 == 0 || expensive {
+		// The collector is off in the worker: a freed large block would be handed out again and
+		// zeroed (touched) by the runtime, whereas a block in fresh address space is never touched.
+		// So: collect only while no large block exists; once one does, let garbage pile up and
+		// start a fresh worker when the pile reaches a fixed size. Both thresholds are far below
+		// the address-space limit, so whether a given allocation succeeds does not depend on history.
+		switch {
+		case bigBytes == 0 && cum > 64<<20:
+			runtime.GC()
+			cum = 0
+		case bigBytes > 0 && (cum > isoRecycleAbove || cum-bigBytes > 128<<20):
+			expensive = true
+		}
+		if since%256 == 0 || expensive {
 			st.Next = c.Idx + 1
 			st.Recycle = expensive
 			if err := isoWriteState(statePath, st); err != nil {
@@ -277,10 +292,7 @@ func IsoChildMain(cfg IsoConfig) {
 				os.Exit(3)
 			}
 			if expensive {
-				// A large block was allocated. Re-using it would make the runtime zero (touch) it;
-				// a fresh worker gets untouched address space instead, so every large allocation
-				// costs the same and the heap every case starts from is the same.
-				os.Exit(0)
+				os.Exit(0) // fresh worker, fresh address space
 			}
 		}
 		return true
